@@ -88,3 +88,24 @@ func (s *MemoryStore) VerifSetNow(now func() time.Time) {
 
 // VerifSetNow replaces the store's clock (a store built by run()'s wiring has no clock option). Call before use.
 func (s *SQLiteStore) VerifSetNow(now func() time.Time) { s.nowFn = now }
+
+// VerifLimits is what a store was configured with (limits and retention), as it holds it.
+type VerifLimits struct {
+	MaxDepth           int
+	DropPolicy         string
+	Retention          time.Duration
+	PruneInterval      time.Duration
+	DeliveredRetention time.Duration
+	DLQRetention       time.Duration
+	DLQMaxDepth        int
+}
+
+func (s *MemoryStore) VerifLimits() VerifLimits {
+	s.mu.Lock()
+	defer s.mu.Unlock()
+	return VerifLimits{s.maxDepth, s.dropPolicy, s.retentionMaxAge, s.pruneInterval, s.deliveredRetentionMaxAge, s.dlqRetentionMaxAge, s.dlqMaxDepth}
+}
+
+func (s *SQLiteStore) VerifLimits() VerifLimits {
+	return VerifLimits{s.maxDepth, s.dropPolicy, s.retentionMaxAge, s.pruneInterval, s.deliveredRetentionMaxAge, s.dlqRetentionMaxAge, s.dlqMaxDepth}
+}
